@@ -284,7 +284,9 @@ class TimeReparametrizedModel(McmcSaemCompatibleModel):
         if not dataset:
             return
         if self.source_dimension is None:
-            self.source_dimension = int(dataset.dimension**0.5)
+            self.source_dimension = min(
+                int(dataset.dimension**0.5), dataset.dimension - 1
+            )
             warnings.warn(
                 "You did not provide `source_dimension` hyperparameter for multivariate model, "
                 f"setting it to ⌊√dimension⌋ = {self.source_dimension}."
